@@ -344,7 +344,7 @@ JudgeOut judge(const json &plan)
 	RunResult r = execute(plan, eo);
 	add_exec_counters(out, r);
 	death_and_stdout(r, "", out.viol);
-	out.viol.erase(std::remove_if(out.viol.begin(), out.viol.end(), [](const Violation &v) { return v.cls.compare(0, 7, "stdout:") == 0; }), out.viol.end());
+	out.viol.erase(std::remove_if(out.viol.begin(), out.viol.end(), [](const Violation &v) { return v.cls.compare(0, 7, "stdout:") == 0 || v.cls.compare(0, 6, "stdin:") == 0; }), out.viol.end());
 	// a death inside a refusing call is reported with the refusal kind
 	const json &steps = plan["steps"];
 	for (auto &v : out.viol)
